@@ -168,7 +168,9 @@ def gen(seed, tier="quick"):
             "deadline_us": r.choice([60_000_000, 3_600_000_000, 10**12, 5_000_000, 1_500_000, 500_000]),
             "jitter_us": r.choice([0, 0, 250_000, 1_000_000, 2_000_000]), "fallback_us": r.choice([0, 100_000, 1_000_000]),
             "draws": r.choice(["zero", "top", "seeded", "mixed"]),
-            "clock": {"base_us": r.choice([0, 10**9]), "skew_us": r.choice([1_700_000_000_000_000, 1_700_000_000_000_000 + r.randrange(0, 10**12), 946_684_800_000_000])}}
+            "clock": {"base_us": r.choice([0, 10**9]), "skew_us": r.choice([1_700_000_000_000_000, 1_700_000_000_000_000 + r.randrange(0, 10**12), 946_684_800_000_000])},
+            # a per-attempt timeout that never fires (sync: real worker thread, async: wait_for on the SimLoop)
+            "attempt_timeout_us": r.choice([None, None, None, None, 20_000_000, 3_600_000_000])}
 
 
 def build_exc(att, wall_us):
@@ -313,6 +315,8 @@ def execute(scn):
     fb = scn["fallback_us"] / 1e6
     strat = S.retry_after_or(lambda ctx: fb, jitter_s=scn["jitter_us"] / 1e6)
     kw = dict(classifier=classifier, strategy=strat, deadline_s=scn["deadline_us"] / 1e6, max_attempts=scn["max_attempts"], max_unknown_attempts=None)
+    if scn.get("attempt_timeout_us"):
+        kw["attempt_timeout_s"] = scn["attempt_timeout_us"] / 1e6
     escaped = None
     state["t0"] = clock.mono_us
     if scn["mode"] == "sync":
